@@ -55,7 +55,7 @@ def run(ctx, chk):
             elif e.kind == "store" and e.addr == LENP:
                 co, k = T.linear(e.val)
                 # reported length = X + 1 for the X that was compared with max_buflen
-                cand = [t[2] for t, v in fb.items if t[0] == "icmp" and T.linear(t[2]) == (co, k - 1)]
+                cand = [x for t, v in fb.items if t[0] == "icmp" for x in (t[2], t[3]) if T.linear(x) == (co, k - 1)]
             guarded = [x for x in cand if fb.truth(T.mk_icmp("ult", x, MAXL)) is True]
             if not guarded:
                 why.append("no fact (marker index < max_buflen) before the write")
